@@ -94,6 +94,7 @@ type Interp struct {
 	observes  []observeEntry
 	steps     int
 	onceDone  map[string]bool
+	atomicVals map[string]Value // contents of sync/atomic.Value objects (per path)
 	noFork    bool
 	depth     int
 	reached   map[string]bool
